@@ -215,7 +215,7 @@ class FourierTransformer(BilateralForwardTransformer):
             elif other == sign(t) * t:
                 return -const1 * 2 / (2 * pi * f)**2
             elif other == Heaviside(t):
-                return const1 / (I * 2 * pi * f) + const1 * DiracDelta(sf) / 2
+                return const1 / (I * 2 * pi * sf) + const1 * DiracDelta(sf) / 2
             elif other == 1 / t:
                 return -const1 * I * pi * sign(sf)
             elif other == 1 / t**2:
@@ -281,7 +281,7 @@ class FourierTransformer(BilateralForwardTransformer):
                 foo = other.args[0]
 
                 if (foo.is_polynomial(t) and foo.as_poly(t).is_linear and
-                        foo.is_complex):
+                        sympify(-foo.coeff(t, 0) / foo.coeff(t, 1)).as_real_imag()[1].is_positive):
                     c0 = foo.coeff(t, 0)
                     c1 = foo.coeff(t, 1)
                     s = (2 * pi * I) / c1
